@@ -414,6 +414,25 @@ var c07Special = []func() []gen.Node{
 	},
 }
 
+func init() {
+	// the alias of an import is a variable like any other: assigned from inside a loop, a condition in a loop or a
+	// capture it has the new value afterwards; a loop value or a macro parameter of the same name hides it - also when
+	// what is read from the value is called like one of the library's macros
+	c07Special = append(c07Special, func() []gen.Node {
+		return []gen.Node{&gen.NImport{Tpl: str("lib"), Alias: "L"}, &gen.NImport{Tpl: str("lib"), Alias: "M"}, &gen.NImport{Tpl: str("lib"), Alias: "N"}, pr(&gen.EMethod{X: nm("L"), Name: "lm", Args: []gen.Expr{str("x")}}), tx("|"),
+			&gen.NFor{Val: "i", Seq: &gen.EArr{Els: []gen.Expr{num(1), num(2)}}, Body: []gen.Node{&gen.NSet{Name: "L", X: &gen.EBin{Op: "~", L: str("v"), R: nm("i")}}, pr(nm("L")), tx(","),
+				&gen.NIf{Conds: []gen.Expr{&gen.EBin{Op: "==", L: nm("i"), R: num(2)}}, Bodies: [][]gen.Node{{&gen.NSet{Name: "M", X: str("m-in-if")}}}}}}, tx("|"), pr(nm("L")), tx("|"), pr(nm("M")), tx("|"),
+			&gen.NIf{Conds: []gen.Expr{&gen.EBool{V: true}}, Bodies: [][]gen.Node{{&gen.NSet{Name: "N", X: str("n-in-if")}}}}, pr(nm("N")), c07Probe("end")}
+	}, func() []gen.Node {
+		hash := func(v string) gen.Expr { return &gen.EHash{Keys: []gen.Expr{str("lm")}, Vals: []gen.Expr{str(v)}} }
+		host := &gen.NMacro{Name: "host", Params: []string{"L"}, Body: []gen.Node{tx("(host:"), pr(attr(nm("L"), "lm")), tx(")")}}
+		return []gen.Node{&gen.NImport{Tpl: str("lib"), Alias: "L"}, host, pr(&gen.EMethod{X: nm("L"), Name: "lm", Args: []gen.Expr{str("x")}}), tx("|"),
+			&gen.NFor{Val: "L", Seq: &gen.EArr{Els: []gen.Expr{hash("loop-value-1"), hash("loop-value-2")}}, Body: []gen.Node{pr(attr(nm("L"), "lm")), tx(",")}}, tx("|"),
+			&gen.NFor{Key: "L", Val: "v", Seq: &gen.EArr{Els: []gen.Expr{str("a")}}, Body: []gen.Node{pr(nm("L")), pr(nm("v")), tx(",")}}, tx("|"),
+			pr(&gen.EMethod{X: nm("_self"), Name: "host", Args: []gen.Expr{hash("parameter")}}), tx("|"), pr(&gen.EMethod{X: nm("L"), Name: "lm", Args: []gen.Expr{str("y")}}), c07Probe("end")}
+	})
+}
+
 func c07SpecialCase(j int) (*Program, string) {
 	ts := map[string]*gen.Template{"main": tpl("main", c07Special[j]()...),
 		"lib":   tpl("lib", &gen.NMacro{Name: "lm", Params: []string{"loop"}, Body: []gen.Node{tx("[lm:"), pr(nm("loop")), tx("]")}}),
